@@ -106,6 +106,12 @@ Definition cache_model (c : bool * list cop) : list (cout * nat) :=
                 dict(op='goc', sub=['s'], key='k', comp=[None], force=False), dict(op='get', sub=['s'], key='k'),
                 dict(op='plant', sub=[], key='k', other='k', value=None), dict(op='get', sub=[], key='k'),
                 dict(op='goc', sub=[], key='k', comp=[3], force=False)]),
+            # the entry recorded for the empty key lying at the location of another key is a foreign entry like any other
+            dict(allow_nones=True, ops=[
+                dict(op='goc', sub=[], key='', comp=[7], force=False), dict(op='get', sub=[], key=''),
+                dict(op='plant', sub=[], key='k', other='', value=5), dict(op='get', sub=[], key='k'),
+                dict(op='goc', sub=[], key='k', comp=[1], force=False), dict(op='goc', sub=[], key='k', comp=[2], force=True),
+                dict(op='get', sub=[], key='k'), dict(op='plant', sub=['s'], key='', other='k', value=6), dict(op='get', sub=['s'], key='')]),
             # a forced computation that raises leaves the stored value in place
             dict(allow_nones=True, ops=[
                 dict(op='goc', sub=[], key='k', comp=[1], force=False), dict(op='goc', sub=[], key='k', comp=None, force=True),
@@ -705,9 +711,84 @@ class UnstorableValues(Suite):
         return repr(case)
 
 
+class ProbeDuringComputation(Suite):
+    """an intact entry is stored; while another thread recomputes it (forced, the computer held at a barrier), a third
+    thread asks for the key with get or with an unforced get_or_compute: the answer is the stored value or the new one,
+    never "no value" and never a computation of its own with a stored value in reach.  Real threads, held by events."""
+    name = 'probe_during_computation'
+    model = ''
+
+    def gen(self, rng, tier):
+        return [dict(cache='JsonCache', probe='get'), dict(cache='JsonCache', probe='get_or_compute'),
+                dict(cache='DataFrameCache', probe='get'), dict(cache='NumpyArrayCache', probe='get')]
+
+    def run_impl(self, case):
+        import threading
+        import numpy as np
+        import pandas as pd
+        from taskchain import cache as tc
+        tmp = tempfile.mkdtemp(prefix='tcverif-probe-')
+        try:
+            mk = {'JsonCache': lambda n: {'v': n}, 'DataFrameCache': lambda n: pd.DataFrame({'v': [n]}),
+                  'NumpyArrayCache': lambda n: np.array([n])}[case['cache']]
+            show = lambda v: 'NO_VALUE' if v is tc.NO_VALUE else (int(v['v']) if isinstance(v, dict) else int(np.asarray(v).ravel()[0]))
+            c = getattr(tc, case['cache'])(tmp)
+            c.get_or_compute('k', lambda: mk(1))
+            started, release, out = threading.Event(), threading.Event(), {}
+
+            def slow():
+                started.set()
+                release.wait(10)
+                return mk(2)
+            writer = threading.Thread(target=lambda: out.__setitem__('writer', show(getattr(tc, case['cache'])(tmp).get_or_compute('k', slow, force=True))))
+            writer.start()
+            if not started.wait(10):
+                return dict(error='the forced computation did not start')
+            own = []
+
+            def probe():
+                c2 = getattr(tc, case['cache'])(tmp)
+                if case['probe'] == 'get':
+                    out['probe'] = show(c2.get('k'))
+                else:
+                    out['probe'] = show(c2.get_or_compute('k', lambda: own.append(1) or mk(3)))
+            reader = threading.Thread(target=probe)
+            reader.start()
+            reader.join(0.5)
+            out['answered_while_computing'] = not reader.is_alive()
+            release.set()
+            reader.join(10)
+            writer.join(10)
+            out['own_computations'] = len(own)
+            out['end'] = show(getattr(tc, case['cache'])(tmp).get('k'))
+            return out
+        finally:
+            shutil.rmtree(tmp, ignore_errors=True)
+
+    def oracle(self, case, obs):
+        if 'unexpected_exception' in obs:
+            return f'unexpected exception {obs["unexpected_exception"]}: {obs["text"]}'
+        if 'error' in obs:
+            return None
+        if obs.get('probe') not in (1, 2, 3):
+            return f'{case}: an intact entry is stored and being recomputed; the probe answers {obs.get("probe")}'
+        if case['probe'] == 'get' and obs['probe'] == 3:
+            return f'{case}: get computed a value'
+        if obs.get('end') not in (2, 3):
+            return f'{case}: after the forced recomputation the entry holds {obs.get("end")}'
+        return None
+
+    def nontrivial(self, case, obs):
+        return 'probe' in obs
+
+    def key(self, case):
+        return repr(case)
+
+
 class C14(Prop):
     pid = 'C14'
-    suites = [JsonCacheOps(), NumpyCacheOps(), ArrayAndFrameCaches(), TwoKeysOneShard(), MemoryCacheOps(), UnstorableValues()]
+    suites = [JsonCacheOps(), NumpyCacheOps(), ArrayAndFrameCaches(), TwoKeysOneShard(), MemoryCacheOps(), UnstorableValues(),
+              ProbeDuringComputation()]
     trusted_base = ['orjson round trip of JSON-like values and "no proper prefix of an entry parses" (damaged files are '
                     'produced by truncation at arbitrary byte lengths in the correspondence)']
     assumptions = ['sequential use (concurrency is C15); SHA-256 without collision on the keys that occur']
